@@ -40,6 +40,10 @@ def pred_of(p, s):
         return lambda x: x == v
     if kind == 'starts':
         return lambda x: x.startswith(v)
+    if kind == 'in':
+        return lambda x: x in v
+    if kind == 'len':
+        return lambda x: len(x) > v
     raise AssertionError(p)
 
 
